@@ -42,19 +42,46 @@ Theorem C07_every_continuation_runs_refuted :
 Proof. exact every_continuation_runs_refuted. Qed.
 Print Assumptions C07_every_continuation_runs_refuted.
 
-(* Integrated model Comp/Core.v (any number of connections, one flat resource, subscribe requests with their access and get
-   requests, events, both kinds of task queue; run in lock-step with the real gateway on every check), every sequence of
-   stimuli and scheduler grants: a connection is sent at most one response, only ever with the id of the request it made,
-   and exactly that one once nothing is left to do. *)
-From RG Require Comp.Conv Comp.Core Proofs.CoreProofs.
-Theorem C07_core_one_response_per_request :
+(* Integrated model Comp/Core.v (any number of connections, one flat resource, subscribe and unsubscribe requests, access
+   answers, events, disconnects, both kinds of task queue; run in lock-step with the real gateway on every check), every
+   sequence of stimuli and scheduler grants in which connection c uses distinct request ids: no id is answered twice, only
+   requested ids are answered, an answered request was not dropped, and once nothing is left to do every request of a
+   connected client has been answered - or its continuation was dropped together with its subscription. *)
+From RG Require Comp.Conv Comp.Core Proofs.CoreProofsABC Proofs.CoreProofsDEF.
+Theorem C07_core_responses :
   forall (val upd : Type) (app : upd -> val -> val) (norm : upd -> val -> option upd) (d : val),
   (forall u v, norm u v = None -> app u v = v) ->
   (forall u v u', norm u v = Some u' -> app u' v = app u v) ->
   forall t ops c,
   let s := fst (Core.exec val upd app norm d t ops) in let outs := snd (Core.exec val upd app norm d t ops) in
-  length (Core.resps val upd c outs) <= 1 /\
-  (forall id, In id (Core.resps val upd c outs) -> Core.first_req upd c ops = Some id) /\
-  (Core.quiescent val upd s -> Core.resps val upd c outs = match Core.first_req upd c ops with Some id => [id] | None => [] end).
-Proof. exact CoreProofs.core_one_response. Qed.
-Print Assumptions C07_core_one_response_per_request.
+  NoDup (Core.reqs upd c ops) ->
+  NoDup (Core.resps val upd c outs) /\ incl (Core.resps val upd c outs) (Core.reqs upd c ops) /\
+  (forall id, In id (Core.resps val upd c outs) -> ~ In id (Core.dropped val upd s c)) /\
+  (Core.quiescent val upd s -> Core.disc (Core.conns val upd s c) = false ->
+   forall id, In id (Core.reqs upd c ops) -> In id (Core.resps val upd c outs) \/ In id (Core.dropped val upd s c)).
+Proof. exact CoreProofsDEF.core_responses. Qed.
+Print Assumptions C07_core_responses.
+
+(* Continuations are dropped only where an unsubscribe request or a disconnect meets waiting requests: without those, none. *)
+Theorem C07_core_nothing_dropped_without_unsubscribe :
+  forall (val upd : Type) (app : upd -> val -> val) (norm : upd -> val -> option upd) (d : val),
+  (forall u v, norm u v = None -> app u v = v) ->
+  (forall u v u', norm u v = Some u' -> app u' v = app u v) ->
+  forall t ops c,
+  (forall o, In o ops -> match o with Core.CUnsub _ _ _ _ | Core.Disc _ _ => False | _ => True end) ->
+  Core.dropped val upd (fst (Core.exec val upd app norm d t ops)) c = [].
+Proof. exact CoreProofsDEF.core_nothing_dropped_without_unsubscribe. Qed.
+Print Assumptions C07_core_nothing_dropped_without_unsubscribe.
+
+(* "Every request of a connected client is answered" is false of the unchanged code (recorded finding KF-PENDING-DROPPED):
+   subscribe; unsubscribe while the subscribe request waits for its access answer - the unsubscribe succeeds against the
+   pending count and the subscribe request is never answered. Model and code agree on such histories (`core` stage). *)
+Theorem C07_core_every_request_answered_refuted :
+  exists ops : list (Core.op nat),
+    let s := fst (Core.exec nat nat (fun u v => u + v) (fun u v => Some u) 0 0 ops) in
+    let outs := snd (Core.exec nat nat (fun u v => u + v) (fun u v => Some u) 0 0 ops) in
+    NoDup (Core.reqs nat 0 ops) /\ Core.reqs nat 0 ops = [1; 2] /\ Core.resps nat nat 0 outs = [2] /\
+    Core.dropped nat nat s 0 = [1] /\ Core.cqueue (Core.conns nat nat s 0) = [] /\ Conv.qe nat nat (Core.cv nat nat s) = [] /\
+    Core.disc (Core.conns nat nat s 0) = false.
+Proof. exact CoreProofsDEF.core_every_request_answered_refuted. Qed.
+Print Assumptions C07_core_every_request_answered_refuted.
